@@ -58,16 +58,10 @@ ASSUMPTIONS = [
     "single serving thread per connection (serve_all); concurrency is C12-C14's subject",
     "the peer's messages are well-framed (C05); a payload that does not decode ends the connection with the decoder's exception",
     "chained connections (an object of ANOTHER rpyc connection held in this table) are outside the model (`notModelled` branch)",
-    "observation on the real code, not run by the correspondence (counted as `unobservable: decref with a proxy as count`): "
-    "HANDLE_DEL whose count is a REMOTE_REF makes RefCountingColl.decref compare under its non-reentrant lock; the comparison "
-    "calls back into the peer, and a nested request that resolves a LOCAL_REF then blocks the serving thread for good "
-    "(/verif/fixes/C07-del-count-must-be-int.patch); the model treats that comparison as an ordinary environment move",
-    "by design, not gated by the attribute policy (listed, not claimed): HANDLE_CALL on any held object incl. its "
-    "`*args`/`dict(kwargs)` unpacking (which runs `keys()`/`__getitem__`/`__iter__` of a held object passed as kwargs/args), "
-    "repr, str, hash, dir, islice(iter(obj)), isinstance(_, obj) (a metaclass's __instancecheck__), `if exc`/`raise exc` "
-    "in HANDLE_CTXEXIT, HANDLE_INSPECT (method names and docstrings of a held object's class hierarchy), "
-    "hasattr(obj, '____conn__'), get_id_pack's attribute reads, a type's own _rpyc_*attr hooks; the theorems say these reach "
-    "only objects the peer holds (or values it sent), not that the policy gates them",
+    "repaired while this check was built (known_findings.json: fixed): HANDLE_DEL with a count that is not an int "
+    "(RefCountingColl.decref compared under its non-reentrant lock: a proxy as count could block the serving thread for "
+    "good) and HANDLE_CALL with args/kwargs that are not tuples (dict(kwargs) ran keys()/[k] of a held object); the oracle "
+    "demands both refusals, and the recorder refuses to run a decref with a non-int count (`unobservable`)",
 ]
 EXPLANATION = (
     "Theorems (Lean, for every environment, every finite sequence of bursts of arbitrary decoded values / undecodable "
@@ -236,11 +230,11 @@ def correspondence(ctx):
         elif len(c.samples) < 8 and i % 251 == 7:
             c.samples.append(dict(session=i, config=cfg, sent=desc[-2:], events=want.split(" | ")[0].split(" ; ")[-12:],
                                   table=want.split(" | ")[1][:300]))
-    c.count("by-design-unpoliced:keys()-run-via-dict(kwargs)", keys_calls)
+    c.count("keys()-run-on-a-held-object(must be 0)", keys_calls)
     c.extra["sessions"] = len(lines)
     c.extra["messages"] = nmsg
     c.extra["unpoliced_by_design"] = [
-        "HANDLE_CALL on any held object (incl. *args / dict(kwargs) unpacking of held objects: keys(), __getitem__, __iter__)",
+        "HANDLE_CALL on any held object (args must be a tuple and kwargs a tuple of pairs; members are the callee's business)",
         "repr", "str", "hash", "dir", "HANDLE_BUFFITER islice(iter(obj))", "HANDLE_INSTANCECHECK isinstance(_, obj)",
         "HANDLE_CTXEXIT bool(exc) / raise exc", "HANDLE_INSPECT get_methods", "hasattr(obj, '____conn__')", "get_id_pack(obj)",
         "a type's own _rpyc_getattr/_rpyc_setattr/_rpyc_delattr hook"]
@@ -266,88 +260,156 @@ def _local_refs(pkg, depth=0):
     return out
 
 
+def _unboxes_to_tuple(pkg):
+    """would `_unbox(pkg)` give an exact tuple (as far as the sender can tell from the package it wrote)"""
+    if type(pkg) is not tuple or len(pkg) != 2 or type(pkg[0]) is not int:
+        return None                       # irregular package: not judged
+    if pkg[0] == 1:
+        return type(pkg[1]) is tuple
+    if pkg[0] == 2:
+        return True
+    if pkg[0] in (3, 4):
+        return False
+    return None
+
+
+def _must_refuse(m):
+    """the repaired handlers' duty, read off the message we are about to send: HANDLE_DEL with a count that is not an
+    exact int, HANDLE_CALL / HANDLE_CALLATTR with args or kwargs that are not exact tuples -> (why, ) or None"""
+    try:
+        msg, _seq, raw = m
+        if type(msg) is not int or msg != 1 or type(raw) is not tuple or len(raw) != 2:
+            return None
+        h, argpkg = raw
+        if type(h) is not int or type(argpkg) is not tuple or len(argpkg) != 2:
+            return None
+        if argpkg[0] == 2 and type(argpkg[1]) is tuple:
+            items = list(argpkg[1])
+        elif argpkg[0] == 1 and type(argpkg[1]) is tuple:
+            items = [(1, v) for v in argpkg[1]]
+        else:
+            return None
+    except Exception:  # noqa
+        return None
+    if h == 15 and len(items) == 2:
+        c = items[1]
+        if type(c) is tuple and len(c) == 2 and type(c[0]) is int:
+            if (c[0] == 1 and type(c[1]) is not int) or c[0] in (2, 3, 4):
+                return "HANDLE_DEL with a count that is not an int"
+    pos = {7: (1, 2), 8: (2, 3)}.get(h)
+    if pos and len(items) in (pos[0] + 1, pos[1] + 1):
+        for k in pos:
+            if k < len(items) and _unboxes_to_tuple(items[k]) is False:
+                return "HANDLE_CALL%s with %s that is not a tuple" % ("ATTR" if h == 8 else "", "args" if k == pos[0] else "kwargs")
+    return None
+
+
 def oracle_session(seed, index, n_bursts=None):
-    """None if the statement holds on this session (real code only, default configuration), else a description"""
+    """None if the statement holds on this session (real code only, default configuration), else a description.
+    Messages are sent ONE AT A TIME here, so that what each one caused can be told apart."""
+    import signal
     hw.ensure_canary_modules()
     r, _cfg, nb = session_case(seed, index, n_bursts)
     problems = []
     mods_before = set(sys.modules)
-    with hw.Session(config={}) as s:
-        g = hw.Gen(r, s)
-        boxed = []                 # every id the server ever boxed to this peer on this connection
-        plan = [g.setup_burst] if r.chance(9, 10) else []
-        pending_foreign = {}
-        n_requests = {}
-        n_responses = {}
-        for b in range(nb):
-            if s.ended:
-                break
-            if plan:
-                maker = plan.pop(0)
-            elif b < 3 and g.held and r.chance(3, 4):
-                maker = g.fetch_burst
-            elif g.held and r.chance(1, 8):
-                maker = g.fetch_burst
-            else:
-                maker = g.hostile_burst
-            msgs = maker()
-            for kind, m in msgs:
-                if kind != "v":
-                    continue
-                try:
-                    from rpyc.core import brine
-                    msg, seq, raw = brine.load(brine.dump(m))    # as `_dispatch` unpacks it (any 3-iterable)
-                except Exception:  # noqa
-                    continue
-                if msg == 1:
-                    key = repr(seq)
-                    n_requests[key] = n_requests.get(key, 0) + 1
-                    if type(raw) is tuple and len(raw) == 2:
-                        for idp in _local_refs(raw[1]):
-                            try:
-                                known = idp in boxed
-                            except Exception:  # noqa
-                                known = False
-                            if not known:
-                                pending_foreign[key] = idp
-            try:
-                got = s.burst(msgs)
-            except rt.Unobservable:
-                return None
-            for m in got:
-                if type(m) is tuple and len(m) == 3 and m[0] in (2, 3):
-                    key = repr(m[1])
-                    n_responses[key] = n_responses.get(key, 0) + 1
-                    if m[0] == 2 and key in pending_foreign:
-                        problems.append("a request carrying the identifier %r, which was never boxed to this peer on this "
-                                        "connection, was answered with a reply" % (pending_foreign[key],))
-                if type(m) is tuple and len(m) == 3:
-                    for idp in _harvest_all(m):
-                        if idp not in boxed:
-                            boxed.append(idp)
-            g.learn(got)
-            pending_foreign = dict((k, v) for k, v in pending_foreign.items() if v not in boxed)
-        ended = s.ended or s.conn.closed
-        if not ended:
-            for key, n in n_requests.items():
-                if n_responses.get(key, 0) != n:
-                    problems.append("request seq %s: %d sent, %d answered, connection still open" % (key, n, n_responses.get(key, 0)))
-            for key in s.conn._local_objects._dict:
-                if key not in boxed:
-                    problems.append("the table holds %r, which was never boxed to this peer" % (key,))
-        if hw.HITS.denied_attr:
-            problems.append("policy-denied attribute looked up on a canary: %r" % (hw.HITS.denied_attr[:3],))
-        if hw.HITS.denied_call:
-            problems.append("policy-denied callable ran: %r" % (hw.HITS.denied_call[:3],))
-        if hw.HITS.state_writes or s.svc.state != 0:
-            problems.append("service state changed by a denied attempt: %r state=%r" % (hw.HITS.state_writes[:3], s.svc.state))
-        if rt.PICKLE_LOG:
-            problems.append("pickle was used: %r" % (rt.PICKLE_LOG[:3],))
-        if rt.IMPORT_LOG or hw.IMPORTED:
-            problems.append("an import was attempted: %r %r" % (rt.IMPORT_LOG[:3], hw.IMPORTED[:3]))
-        new = [m for m in set(sys.modules) - mods_before if m in hw.CANARY_MODULES]
-        if new:
-            problems.append("canary module imported: %r" % new)
+    old = signal.signal(signal.SIGALRM, _alarm)
+    try:
+        with hw.Session(config={}) as s:
+            g = hw.Gen(r, s)
+            boxed = []                 # every id the server ever boxed to this peer on this connection
+            plan = [g.setup_burst] if r.chance(9, 10) else []
+            n_requests = {}
+            n_responses = {}
+            for b in range(nb):
+                if s.ended:
+                    break
+                if plan:
+                    maker = plan.pop(0)
+                elif b < 3 and g.held and r.chance(3, 4):
+                    maker = g.fetch_burst
+                elif g.held and r.chance(1, 8):
+                    maker = g.fetch_burst
+                else:
+                    maker = g.hostile_burst
+                msgs = maker()
+                got_all = []
+                for kind, m in msgs:
+                    if s.ended:
+                        break
+                    foreign, key, refuse = None, None, None
+                    if kind == "v":
+                        try:
+                            from rpyc.core import brine
+                            msg, seq, raw = brine.load(brine.dump(m))    # as `_dispatch` unpacks it (any 3-iterable)
+                        except Exception:  # noqa
+                            msg = None
+                        if msg is not None and msg == 1:
+                            key = repr(seq)
+                            n_requests[key] = n_requests.get(key, 0) + 1
+                            if type(raw) is tuple and len(raw) == 2:
+                                for idp in _local_refs(raw[1]):
+                                    try:
+                                        known = idp in boxed
+                                    except Exception:  # noqa
+                                        known = False
+                                    if not known:
+                                        foreign = idp
+                            refuse = _must_refuse(m)
+                    before = (len(hw.HITS.keys_calls), len(hw.HITS.special))
+                    signal.alarm(WATCHDOG_S)
+                    try:
+                        got = s.burst([(kind, m)])
+                    except rt.Unobservable:
+                        return None
+                    except SessionHang:
+                        return ("the serving thread hangs on %s: the message is neither answered nor ignored and the connection "
+                                "does not end" % (repr(m)[:200],))
+                    finally:
+                        signal.alarm(0)
+                    got_all += got
+                    for f in got:
+                        if type(f) is tuple and len(f) == 3 and f[0] in (2, 3):
+                            k2 = repr(f[1])
+                            n_responses[k2] = n_responses.get(k2, 0) + 1
+                            if f[0] == 2 and k2 == key and foreign is not None:
+                                problems.append("a request carrying the identifier %r, which was never boxed to this peer on this "
+                                                "connection, was answered with a reply" % (foreign,))
+                            if f[0] == 2 and k2 == key and refuse:
+                                problems.append("%s was answered with a reply: %s" % (refuse, repr(m)[:200]))
+                        if type(f) is tuple and len(f) == 3:
+                            for idp in _harvest_all(f):
+                                if idp not in boxed:
+                                    boxed.append(idp)
+                    if refuse and (len(hw.HITS.keys_calls), len(hw.HITS.special)) != before:
+                        problems.append("%s made the protocol run %r on a held object: %s" % (
+                            refuse, (hw.HITS.keys_calls[before[0]:] + hw.HITS.special[before[1]:])[:3], repr(m)[:200]))
+                g.learn(got_all)
+            ended = s.ended or s.conn.closed
+            if not ended:
+                for key, n in n_requests.items():
+                    if n_responses.get(key, 0) != n:
+                        problems.append("request seq %s: %d sent, %d answered, connection still open" % (key, n, n_responses.get(key, 0)))
+                for key in s.conn._local_objects._dict:
+                    if key not in boxed:
+                        problems.append("the table holds %r, which was never boxed to this peer" % (key,))
+            if hw.HITS.denied_attr:
+                problems.append("policy-denied attribute looked up on a canary: %r" % (hw.HITS.denied_attr[:3],))
+            if hw.HITS.denied_call:
+                problems.append("policy-denied callable ran: %r" % (hw.HITS.denied_call[:3],))
+            if hw.HITS.keys_calls:
+                problems.append("keys() of a held object ran (a name the policy denies): %r" % (hw.HITS.keys_calls[:3],))
+            if hw.HITS.state_writes or s.svc.state != 0:
+                problems.append("service state changed by a denied attempt: %r state=%r" % (hw.HITS.state_writes[:3], s.svc.state))
+            if rt.PICKLE_LOG:
+                problems.append("pickle was used: %r" % (rt.PICKLE_LOG[:3],))
+            if rt.IMPORT_LOG or hw.IMPORTED:
+                problems.append("an import was attempted: %r %r" % (rt.IMPORT_LOG[:3], hw.IMPORTED[:3]))
+            new = [m for m in set(sys.modules) - mods_before if m in hw.CANARY_MODULES]
+            if new:
+                problems.append("canary module imported: %r" % new)
+    finally:
+        signal.alarm(0)
+        signal.signal(signal.SIGALRM, old)
     return "; ".join(problems) if problems else None
 
 
